@@ -59,7 +59,17 @@ func runC20(w *World, r *Report) {
 		}},
 		{"Since(changeStart) >= MinStablePeriod", func(cs []Cond, rs []Rel) bool {
 			op, _ := FindRel(rs, func(v ssa.Value) bool {
-				return isCallTo0(v, "clock.Clock).Since") && strings.HasSuffix(Path(v), "param:scw.changeStart)")
+				if isCallTo0(v, "clock.Clock).Since") && strings.HasSuffix(Path(v), "param:scw.changeStart)") {
+					return true
+				}
+				// the same elapsed time written as t.Sub(changeStart) with t a reading of the clock
+				// taken at (after) the observation
+				c, isC := peel(v).(*ssa.Call)
+				if !isC || !isCallTo(c, "time.Time).Sub") || len(c.Call.Args) != 2 || Path(c.Call.Args[1]) != "param:scw.changeStart" {
+					return false
+				}
+				now, isNow := peel(c.Call.Args[0]).(*ssa.Call)
+				return isNow && isCallTo(now, "clock.Clock).Now") && domInstr(obs.(ssa.Instruction), now)
 			}, f(`config\.MinStablePeriod`))
 			return op == ">="
 		}},
@@ -209,7 +219,11 @@ func runC20(w *World, r *Report) {
 				}
 				return op
 			}
-			fresh := isCallTo0(cst[0].Val, "clock.Clock).Now") && peel(cst[0].Val).(*ssa.Call).Block() == cst[0].Block()
+			// read in the branch itself, or at least after the wait: at/after the observation
+			fresh := false
+			if nowC, isNow := peel(cst[0].Val).(*ssa.Call); isNow && isCallTo(nowC, "clock.Clock).Now") {
+				fresh = nowC.Block() == cst[0].Block() || domInstr(obs.(ssa.Instruction), nowC)
+			}
 			r.Check(changed(one) == "!=" && changed(cst[0]) == "!=" && changed(trigFalse[0]) == "!=", "R3", "run/reset-on-change", posOf(one),
 				"count:=1 (%s), changeStart (%s) and triggered:=false (%s) execute exactly on observation != lastState", changed(one), changed(cst[0]), changed(trigFalse[0]))
 			r.Check(fresh, "R3", "run/changeStart-fresh-clock-read", posOf(cst[0]), "changeStart := %s read in the branch itself (a timestamp taken before the wait would over-count the stable period)", Path(cst[0].Val))
